@@ -25,6 +25,7 @@ import (
 	"strconv"
 	"strings"
 	"sync"
+	"unicode/utf8"
 
 	"github.com/CloudyKit/fastprinter"
 )
@@ -60,15 +61,59 @@ type escapeeWriter struct {
 	Writer  io.Writer
 	escapee SafeWriter
 	set     *Set
+	pending pendingRune
 }
 
 func (w *escapeeWriter) Write(b []byte) (int, error) {
 	if w.set.escapee == nil {
 		w.Writer.Write(b)
-	} else {
+	} else if b = w.pending.join(b); len(b) > 0 {
 		w.set.escapee(w.Writer, b)
 	}
 	return 0, nil
+}
+
+// print renders v through the escaper of the set.
+func (w *escapeeWriter) print(v reflect.Value) error {
+	w.pending.n = 0
+	_, err := fastprinter.PrintValue(w, v)
+	if rest := w.pending.rest(); len(rest) > 0 && w.set.escapee != nil {
+		w.set.escapee(w.Writer, rest)
+	}
+	return err
+}
+
+// pendingRune holds back the first bytes of a multi-byte character that a piece of a value ends in: values
+// reach the escape writers in pieces of a few KiB, and an escaper that looks at characters (safeJs does) must
+// not be handed the two halves of one separately.
+type pendingRune struct {
+	buf [utf8.UTFMax]byte
+	n   int
+}
+
+// join returns b, preceded by what was held back and without the incomplete character it ends in, if any.
+func (p *pendingRune) join(b []byte) []byte {
+	if p.n > 0 {
+		b = append(append(make([]byte, 0, p.n+len(b)), p.buf[:p.n]...), b...)
+		p.n = 0
+	}
+	for i := 1; i < utf8.UTFMax && i <= len(b); i++ {
+		if c := b[len(b)-i]; utf8.RuneStart(c) {
+			if c >= utf8.RuneSelf && !utf8.FullRune(b[len(b)-i:]) {
+				p.n = copy(p.buf[:], b[len(b)-i:])
+				b = b[:len(b)-i]
+			}
+			break
+		}
+	}
+	return b
+}
+
+// rest returns what is still held back (the value ended in an incomplete character).
+func (p *pendingRune) rest() []byte {
+	n := p.n
+	p.n = 0
+	return p.buf[:n]
 }
 
 // Runtime this type holds the state of the execution of an template
@@ -444,7 +489,7 @@ func (st *Runtime) executeList(list *ListNode) (returnValue reflect.Value) {
 					if v.Type().Implements(rendererType) {
 						v.Interface().(Renderer).Render(st)
 					} else {
-						_, err := fastprinter.PrintValue(st.escapeeWriter, v)
+						err := st.escapeeWriter.print(v)
 						if err != nil {
 							node.error(err)
 						}
@@ -1355,20 +1400,30 @@ func (st *Runtime) evalChainNodeExpression(node *ChainNode) (reflect.Value, erro
 type escapeWriter struct {
 	rawWriter  io.Writer
 	safeWriter SafeWriter
+	pending    pendingRune
 }
 
 func (w *escapeWriter) Write(b []byte) (int, error) {
-	w.safeWriter(w.rawWriter, b)
+	if b = w.pending.join(b); len(b) > 0 {
+		w.safeWriter(w.rawWriter, b)
+	}
 	return 0, nil
+}
+
+func (w *escapeWriter) print(v reflect.Value) {
+	fastprinter.PrintValue(w, v)
+	if rest := w.pending.rest(); len(rest) > 0 {
+		w.safeWriter(w.rawWriter, rest)
+	}
 }
 
 func (st *Runtime) evalSafeWriter(term reflect.Value, node *CommandNode, v ...reflect.Value) {
 	sw := &escapeWriter{rawWriter: st.Writer, safeWriter: term.Interface().(SafeWriter)}
 	for i := 0; i < len(v); i++ {
-		fastprinter.PrintValue(sw, v[i])
+		sw.print(v[i])
 	}
 	for i := 0; i < len(node.Exprs); i++ {
-		fastprinter.PrintValue(sw, st.evalPrimaryExpressionGroup(node.Exprs[i]))
+		sw.print(st.evalPrimaryExpressionGroup(node.Exprs[i]))
 	}
 }
 
